@@ -134,7 +134,9 @@ func (p *populator) fill(v reflect.Value, depth int) {
 	}
 	switch t.Kind() {
 	case reflect.Bool:
-		v.SetBool(true)
+		// mostly true (a dropped field shows), sometimes false so that neighbouring
+		// flags differ (a field copied from its neighbour shows)
+		v.SetBool(p.next()%4 != 0)
 	case reflect.Int, reflect.Int8, reflect.Int16, reflect.Int32, reflect.Int64:
 		v.SetInt(int64(p.next()%5) + 1)
 	case reflect.Uint, reflect.Uint8, reflect.Uint16, reflect.Uint32, reflect.Uint64:
